@@ -86,12 +86,26 @@ func c16Run(r *ev.Run, s c16Session, record bool) (msgs []e2e.Msg) {
 	var idMu sync.Mutex
 	var hist []snap
 	pending := ""
+	// the emulation attributes a notification to the transaction during which it passes the proxy; that is right as long as
+	// the server finishes a transaction only after its notifications were acknowledged. If a notification turns up outside a
+	// transaction, or two for one monitor inside one, that premise does not hold for the server under test: the session is
+	// then not judged (counted), instead of being judged on a wrong emulation
+	inTxn := false
+	seenInTxn := map[string]int{}
+	premiseBroken := false
 	begin := func() {
 		idMu.Lock()
 		pending = fmt.Sprintf("dddddddd-0000-0000-0000-%012d", len(hist)+1)
+		inTxn = true
+		seenInTxn = map[string]int{}
 		idMu.Unlock()
 	}
 	commit := func() {
+		defer func() {
+			idMu.Lock()
+			inTxn = false
+			idMu.Unlock()
+		}()
 		// the server holds its transaction lock from the first operation to the commit, notifications included: a read-only
 		// transaction of our own returns only once an earlier transaction whose caller was cut off has been committed
 		_, _ = env.Sys.TransactRef([]rm.Op{{Op: "select", Table: "RW"}})
@@ -122,6 +136,11 @@ func c16Run(r *ev.Run, s c16Session, record bool) (msgs []e2e.Msg) {
 				}
 				idMu.Lock()
 				id := pending
+				key := fmt.Sprint(m.Conn, string(n.Params[0]))
+				seenInTxn[key]++
+				if !inTxn || seenInTxn[key] > 1 {
+					premiseBroken = true
+				}
 				idMu.Unlock()
 				b, _ := json.Marshal(map[string]interface{}{"id": json.RawMessage(m.ID), "method": "update3", "params": []interface{}{n.Params[0], id, n.Params[1]}})
 				return b
@@ -256,6 +275,9 @@ func c16Run(r *ev.Run, s c16Session, record bool) (msgs []e2e.Msg) {
 	}
 	var settle func(depth int) bool
 	settle = func(depth int) bool {
+		// a server that does not wait for acknowledgements returns from a transaction while its notification (and the cut it
+		// may trigger) is still on its way through the proxy
+		px.Quiesce(8*time.Millisecond, 2*time.Second)
 		for drained := false; !drained; {
 			select {
 			case conn := <-cutAt:
@@ -398,6 +420,22 @@ func c16Run(r *ev.Run, s c16Session, record bool) (msgs []e2e.Msg) {
 		return px.Messages()
 	}
 	// ---- oracle
+	// the notifications the server has sent are behind an echo round trip (the client handles incoming messages in order);
+	// this does not rely on the server waiting for acknowledgements
+	barrier := func() {
+		ectx, ecancel := context.WithTimeout(context.Background(), 10*time.Second)
+		_ = c.Echo(ectx)
+		ecancel()
+	}
+	barrier()
+	idMu.Lock()
+	broken := premiseBroken
+	idMu.Unlock()
+	if ids && broken {
+		r.Add("sessions_not_judged_emulation_premise_broken", 1)
+		r.Exhaustive = false
+		return px.Messages()
+	}
 	db := env.Sys.State()
 	r.Add("sessions_completed", 1)
 	if d := c01Compare(ref, e2e.CacheState(ref, c), db, monitored); d != "" {
@@ -420,6 +458,7 @@ func c16Run(r *ev.Run, s c16Session, record bool) (msgs []e2e.Msg) {
 	// all monitors still registered on the server: a further transaction reaches the cache
 	probe := []rm.Op{opUpdate("R", uR[0], rm.Row{"imm": rm.SetOf(rm.S(""))}), opUpdate("N1", uN1[1], rm.Row{"name": rm.SetOf(rm.S("final"))}), opUpdate("R", uR[0], rm.Row{"cnt": rm.SetOf(rm.I(99))})}
 	if _, err := txn(probe); err == nil && doSettle("probe") {
+		barrier()
 		if d := c01Compare(ref, e2e.CacheState(ref, c), env.Sys.State(), monitored); d != "" {
 			r.Violation("c16.monitor-lost."+feature, fmt.Sprintf("[%s] a transaction committed after the resynchronisation does not reach the cache:\n%s", s, d), cse(d))
 		}
